@@ -15,6 +15,12 @@ CONSTANTS
   MaxDev = 3
   MaxOps = 6
   StaleClaim = FALSE
+  Flds = {"none"}
+  Sks = {"no"}
+  Ups = {FALSE}
+  RegMeta = 0
+  ClaimKinds = {"claim"}
+  Bug = "none"
   EmitMod = 16
 CONSTRAINT Bound
 VIEW View
